@@ -667,5 +667,12 @@ func validateLine(line string) error {
 	if strings.ContainsAny(line, "\n\r") {
 		return errors.New("smtp: A line must not contain CR or LF")
 	}
+	// No other control character can be part of a command line either (RFC 5321, section 4.1.2:
+	// not even within a quoted local part), the server would see a different or broken argument
+	for i := 0; i < len(line); i++ {
+		if line[i] < 32 || line[i] == 127 {
+			return errors.New("smtp: A line must not contain control characters")
+		}
+	}
 	return nil
 }
